@@ -82,3 +82,9 @@ ASM_GLOBS = (
     ("verif_objs", "Outer.Inner"),
     ("collections", "Counter.most_common"),
 )
+# the same attribute names in other modules: only for generators that allow a name to be rebound
+# once the earlier global is dead (asm rebind_dead_names)
+ASM_GLOBS_COLLIDING = ASM_GLOBS + (
+    ("other.mod", "Baz"), ("numpy", "load"), ("verif_objs", "OrderedDict"), ("posix", "system"),
+    ("foo.bar", "dtype"), ("copyreg", "Popen"),
+)
